@@ -259,8 +259,17 @@ func allBlocked(stack []byte) bool {
 		}
 		switch state {
 		case "chan receive", "chan send", "select", "sync.Cond.Wait", "IO wait", "select (no cases)", "chan receive (nil chan)",
-			"semacquire", "sync.WaitGroup.Wait", "sync.Mutex.Lock", "sync.RWMutex.Lock", "sync.RWMutex.RLock":
-			// parked on a sync primitive: it can only move when another goroutine does, and that one is judged on its own state
+			"sync.WaitGroup.Wait":
+			// waiting for other goroutines to finish: it can only move when one of them does, and they are judged on their own state.
+			// (A goroutine parked on a MUTEX is not counted as blocked: the holder may be the observing goroutine itself - a request
+			// that is about to record its completion under the harness's lock - and then the system is not quiescent.)
+		case "semacquire":
+			// go1.23 parks WaitGroup.Wait under this reason, but so does the runtime for its own semaphores (a goroutine about to
+			// start a collection waits for the world semaphore that the observer's runtime.Stack call is holding): only the
+			// WaitGroup wait is a wait for other goroutines of the system under observation.
+			if !bytes.Contains(b, []byte("sync.(*WaitGroup).Wait")) {
+				return false
+			}
 		default:
 			return false
 		}
